@@ -165,3 +165,116 @@ Proof.
     f_equal. destruct (ref_prepare c i (ref_obj c i)); reflexivity.
   - unfold prepare. rewrite Hf. reflexivity.
 Qed.
+
+(* ------------------------------------------------------------------ histories: one object, several calls *)
+Definition is_tchar (t : tok) : bool := match t with TChar _ => true | _ => false end.
+
+Lemma render_nonempty ts e out : render ts e = Ok out -> existsb is_tchar ts = true -> out <> [].
+Proof.
+  revert out; induction ts as [|t r IH]; intros out H Hex; [discriminate|].
+  destruct t as [ch| |n|]; simpl in *.
+  - apply rmap_ok in H as [a [_ ->]]. discriminate.
+  - apply rmap_ok in H as [a [_ ->]]. discriminate.
+  - destruct (lookup n e) as [v|]; [|discriminate]. apply rmap_ok in H as [a [Ha ->]].
+    intros E. apply app_eq_nil in E as [_ E]. exact (IH a Ha Hex E).
+  - discriminate.
+Qed.
+
+Lemma page_templates_have_text :
+  existsb is_tchar (tokenise html_template) = true /\ existsb is_tchar (tokenise plain_template) = true.
+Proof. split; vm_compute; reflexivity. Qed.
+
+Lemma utf8_nonempty page bytes : utf8_bytes page = Ok bytes -> page <> [] -> bytes <> [].
+Proof.
+  unfold utf8_bytes. destruct (forallb valid_scalar page); [|discriminate]. intros H Hp. injection H as <-.
+  destruct page as [|x r]; [congruence|]. unfold Utf8.encode. cbn [flat_map]. unfold encode1.
+  destruct (x <? 128); [discriminate|]. destruct (x <? 2048); [discriminate|]. destruct (x <? 65536); discriminate.
+Qed.
+
+Lemma page_nonempty b c i page :
+  pick_branch (chosen_type i) (p_branches spec_policy) = Some b ->
+  page_text spec_policy b c i = Ok page -> page <> [].
+Proof.
+  intros Hb Hp. rewrite page_text_unfold in Hp. apply rbind_ok in Hp as [body [_ Hp]].
+  assert (Hin : b = bh \/ b = bj \/ b = bp).
+  { unfold chosen_type in Hb. cbn [pick_branch p_branches spec_policy b_test] in Hb.
+    repeat match type of Hb with (if ?x then _ else _) = _ => destruct x end; injection Hb as <-; auto. }
+  destruct page_templates_have_text as [Hh Hpl].
+  destruct Hin as [ -> | [ -> | -> ] ]; unfold page_of in Hp; cbn [b_page bh bj bp] in Hp.
+  - exact (render_nonempty _ _ _ Hp Hh).
+  - injection Hp as <-. discriminate.
+  - exact (render_nonempty _ _ _ Hp Hpl).
+Qed.
+
+Lemma ref_obj_call c i s : ref_obj c (with_call i s) = ref_obj c i.
+Proof. reflexivity. Qed.
+
+(* what a rendering call does to the fresh object *)
+Lemma ref_prepare_ok c i o' :
+  ref_prepare c i (ref_obj c i) = Ok o' ->
+  (c_empty c = true /\ o' = ref_obj c i) \/ (c_empty c = false /\ ob_body o' <> []).
+Proof.
+  unfold ref_prepare. destruct (c_empty c) eqn:He.
+  - intros H; injection H as <-. left; auto.
+  - destruct (pick_branch (chosen_type i) (p_branches spec_policy)) as [b|] eqn:Hb.
+    + intros H. apply rbind_ok in H as [page [Hp H]]. apply rmap_ok in H as [bytes [Hu ->]].
+      right. split; [reflexivity|]. cbn [set_resp ob_body].
+      exact (utf8_nonempty _ _ Hu (page_nonempty b c i page Hb Hp)).
+    + unfold chosen_type in Hb. cbn [pick_branch p_branches spec_policy b_test] in Hb.
+      repeat match type of Hb with (if ?x then _ else _) = _ => destruct x end; discriminate.
+Qed.
+
+Definition hist_inv (c : cls) (i : input) (o : obj) (done : option output) : Prop :=
+  (done = None /\ o = ref_obj c i) \/ (exists out, done = Some out /\ ob_body o <> [] /\ respond o = out).
+
+Lemma gen_calls_ref c i : find_cls (i_cls i) classes = Some c ->
+  forall l o done, hist_inv c i o done ->
+  map Some (gen_calls o l) = calls spec_policy i done l.
+Proof.
+  intros Hf. induction l as [|s r IH]; intros o done Hinv; [reflexivity|].
+  cbn [gen_calls calls map].
+  destruct Hinv as [ [-> ->] | [out [-> [Hb <-] ] ] ].
+  - (* no body yet: this call renders *)
+    assert (Hf' : find_cls (i_cls (with_call i s)) classes = Some c) by exact Hf.
+    pose proof (ref_prepare_respond c (with_call i s) Hf') as Hr. rewrite ref_obj_call in Hr.
+    rewrite gen_call_is_prepare.
+    pose proof (gen_prepare_is_model (fun _ _ => snd s) c (with_call i s) (ref_obj c i)
+                  (fresh_ref c (with_call i s)) eq_refl) as Hg.
+    change (i_environ (with_call i s)) with (fst s) in Hg. rewrite Hg. clear Hg.
+    cbv zeta. rewrite <- Hr.
+    destruct (ref_prepare c (with_call i s) (ref_obj c i)) as [o'| | |] eqn:E;
+      cbn [rbind rmap map]; try (f_equal; apply IH; left; split; reflexivity).
+    f_equal. apply IH.
+    pose proof (ref_prepare_ok c (with_call i s)) as Hok. rewrite ref_obj_call in Hok.
+    destruct (Hok o' E) as [ [He ->] | [He Hne] ].
+    + left. split; [|reflexivity]. unfold stored, respond, ref_obj. cbn [o_body ob_body is_nil]. reflexivity.
+    + right. exists (respond o'). split; [|split; [exact Hne|reflexivity]].
+      unfold stored. cbn [respond o_body]. destruct (ob_body o'); [congruence|reflexivity].
+  - (* a body is stored: every call repeats it *)
+    rewrite gen_call_is_prepare, (gen_prepare_stored _ o (fst s) Hb). cbn [rbind map].
+    f_equal. apply IH. right. exists (respond o). auto.
+Qed.
+
+(* ---- the regenerated program, threaded through any sequence of calls, is the reference history *)
+Theorem generated_history_is_model i l : model_calls i l = ref_calls i l.
+Proof.
+  unfold model_calls, ref_calls. destruct (find_cls (i_cls i) classes) as [c|] eqn:Hf.
+  - rewrite gen_obj_is_model. apply (gen_calls_ref c i Hf). left; auto.
+  - induction l as [|s r IH]; [reflexivity|]. cbn [map calls].
+    assert (E : prepare spec_policy (with_call i s) = None).
+    { unfold prepare. change (i_cls (with_call i s)) with (i_cls i). rewrite Hf. reflexivity. }
+    cbv zeta. rewrite E. cbn [stored]. f_equal. exact IH.
+Qed.
+
+(* the history theorems of Proofs/C19.v, about the regenerated program *)
+Corollary history_consistent_generated i l k o :
+  nth_error (model_calls i l) k = Some (Some (Ok o)) ->
+  exists j s, (j <= k)%nat /\ nth_error l j = Some s /\ model (with_call i s) = Some (Ok o).
+Proof.
+  rewrite generated_history_is_model. intros H.
+  destruct (history_consistent i l k o H) as (j & s & Hj & Hn & Hs).
+  exists j, s. rewrite generated_is_spec. auto.
+Qed.
+
+Corollary history_check_generated i l : history_ok (model_calls i l) (spec_singles i l) = true.
+Proof. rewrite generated_history_is_model. apply history_consistent_b. Qed.
